@@ -346,6 +346,11 @@ func (b *Builder) Pair(depth int) (*spec.T, *spec.T) {
 		}
 		if b.O.UseUnderlying {
 			choices = append(choices, choice{"under", 4})
+			if b.O.DropContext {
+				// the leg about unavailable contexts: functions found through underlying types
+				// are the rarer way to need one
+				choices = append(choices, choice{"under", 14})
+			}
 		}
 	}
 	if b.comparableOnly || b.noNillable {
